@@ -4,7 +4,7 @@ PROP = Prop(
     models=[("pkg/kfake/persist.go", ["writeEntry", "readEntries", "decodeIndexEntry", "decodeBatchRaw", "Cluster.loadSegmentBatches",
                                       "Cluster.loadPartition", "snapshotMatchesSegments", "Cluster.loadPartitionFromSnapshot",
                                       "Cluster.loadPartitionFullReplay", "Cluster.persistBatchToSegment", "writeJSONFile",
-                                      "replayGroupsLog", "Cluster.loadFromDisk", "Cluster.loadGroupsLog", "Cluster.loadPIDsLog", "truncateLogFile"])],
+                                      "replayGroupsLog", "Cluster.loadFromDisk", "Cluster.loadGroupsLog", "Cluster.loadPIDsLog", "truncateLogFile", "Cluster.loadSessionState"])],
     group_by_reset=True,
     run_timeout={"quick": 900, "thorough": 3000},
     rule="case = one restart of a real kfake (DataDir+SyncWrites) on an image of its crash-simulating file system. (A) generation 1: "
